@@ -19,6 +19,8 @@ def build_plan(choice: Choice, tier):
     p = {}
     p["mode"] = "mul_p_map" if d(3, "mode") == 2 else "FunctorMap"
     p["workers"] = 1 + d(6 if thorough else 4, "workers")
+    # workers <= 0 means "as many as there are cpus": the cpu count is then the drawn number
+    p["workers_arg"] = [None, None, None, -1, 0][d(5, "workers.arg")]
     p["pipe_delay"] = d(4, "pipe.delay") != 0
     p["pipe_capacity"] = [None, None, 1, 2][d(4, "pipe.capacity")] if p["pipe_delay"] else None
     p["functor_pause"] = d(3, "functor.pause")
@@ -90,11 +92,23 @@ def scenario(k: Kernel, plan, obs):
         return typed_input(c, call)
 
     cp = plan["consumer_pause"]
+    wa = plan["workers"] if plan.get("workers_arg") is None else plan["workers_arg"]
+
+    class MPShim:
+        def cpu_count(self):
+            return plan["workers"]
+
+        def __getattr__(self, name):
+            import multiprocessing as _mp
+            return getattr(_mp, name)
+
+    pools.multiprocessing = MPShim()
+    maps.multiprocessing = MPShim()
     if plan["mode"] == "FunctorMap":
         pools.Queue = ctx.Queue
         pools.FunctorWorker._Popen = make_popen(k)
         pools.FunctorWorker.sim_role = "worker"
-        fm = pools.FunctorMap(pf, plan["workers"])
+        fm = pools.FunctorMap(pf, wa)
         obs["phase"] = "enter"
         with fm:
             obs["phase"] = "inside"
@@ -124,7 +138,7 @@ def scenario(k: Kernel, plan, obs):
         obs["phase"] = "inside"
         for c, call in enumerate(plan["calls"]):
             obs["call_state"].append("running")
-            out = maps.mul_p_map(pf, data_of(c, call), plan["workers"])
+            out = maps.mul_p_map(pf, data_of(c, call), wa)
             obs["outs"].append(list(out))
             obs["call_state"][c] = "done"
             k.note(f"call {c} done n={len(out)}")
